@@ -60,6 +60,8 @@ pub enum Req {
     IterMut(usize, bool),
     FmtMut(usize),
     CStrFmtMut(usize),
+    /// alloc_try_with / alloc_try_with_mut (inherent on Bump and BumpScope): closure result, payload shape
+    TryWith(bool, u8),
 }
 
 impl Req {
@@ -358,6 +360,41 @@ where
     A: Handle + BaseAllocator<Bool<GA>>,
     bump_scope::settings::MinimumAlignment<MA>: bump_scope::settings::SupportedMinimumAlignment,
 {
+    if let Req::TryWith(ok, shape) = req {
+        // the four inherent entry points: shared / exclusive x Bump / BumpScope ("just like alloc_try_with, but
+        // optimized for a mutable reference")
+        macro_rules! tw {
+            ($T:ty, $E:ty, $tv:expr, $ev:expr) => {{
+                let f = || -> Result<$T, $E> { if *ok { Ok($tv) } else { Err($ev) } };
+                let r = match e {
+                    Entry::BumpInherent | Entry::RefBump | Entry::DynCore => {
+                        if try_ { match bump.try_alloc_try_with(f) { Ok(x) => x, Err(_) => return ERR } } else { bump.alloc_try_with(f) }
+                    }
+                    Entry::MutRefBump | Entry::DynMutCoreScope => {
+                        if try_ { match bump.try_alloc_try_with_mut(f) { Ok(x) => x, Err(_) => return ERR } } else { bump.alloc_try_with_mut(f) }
+                    }
+                    Entry::MutRefScope | Entry::RefRefScope => {
+                        let s = bump.as_mut_scope();
+                        if try_ { match s.try_alloc_try_with_mut(f) { Ok(x) => x, Err(_) => return ERR } } else { s.alloc_try_with_mut(f) }
+                    }
+                    _ => {
+                        let s = bump.as_scope();
+                        if try_ { match s.try_alloc_try_with(f) { Ok(x) => x, Err(_) => return ERR } } else { s.alloc_try_with(f) }
+                    }
+                };
+                match r {
+                    Ok(bx) => out_box(bx, base, true),
+                    Err(er) => Out { ok: true, off: None, bytes: format!("{er:?}").into_bytes() },
+                }
+            }};
+        }
+        return match shape % 4 {
+            0 => tw!(u64, u32, seed, seed as u32),
+            1 => tw!([u8; 16], u8, [seed as u8; 16], 3u8),
+            2 => tw!([u32; 3], [u32; 40], [seed as u32; 3], [7u32; 40]),
+            _ => tw!([u64; 40], u16, [seed; 40], 9u16),
+        };
+    }
     if req.needs_mut() {
         return match e {
             Entry::BumpInherent => mut_req!(&mut *bump, req, try_, seed, base),
@@ -436,8 +473,13 @@ where
 }
 
 fn rel(s: &StatsSnap, base: usize) -> (Vec<(usize, usize, usize)>, Option<usize>, usize, usize, usize) {
+    // the position of a chunk *behind* the current one is stale by design (it is rewound when the chunk is
+    // entered again) and not part of the observable state: an Err from alloc_try_with leaves it advanced, an Err
+    // from alloc_try_with_mut never moved it
+    let cur = s.current.as_ref().map(|c| c.chunk_start);
+    let k = s.chunks.iter().position(|c| Some(c.chunk_start) == cur).unwrap_or(usize::MAX);
     (
-        s.chunks.iter().map(|c| (c.chunk_start - base, c.size, c.pos - base)).collect(),
+        s.chunks.iter().enumerate().map(|(i, c)| (c.chunk_start - base, c.size, if i > k { 0 } else { c.pos - base })).collect(),
         s.current.as_ref().map(|c| c.chunk_start - base),
         s.count,
         s.allocated,
@@ -469,7 +511,8 @@ fn decode_req(r: &Rec, remaining: usize) -> Req {
         let sz = with_ty!(t, T => std::mem::size_of::<T>()).max(1);
         (n / sz).min(2000)
     };
-    match r.b(0) % 27 {
+    match r.b(0) % 29 {
+        27 | 28 => Req::TryWith(r.b(8) % 3 != 0, r.b(9)),
         0 | 1 => Req::Alloc(ty),
         2 => Req::AllocWith(ty),
         3 => Req::AllocDefault(ty),
